@@ -116,10 +116,13 @@ int cx_vasprintf(CxMem *cx, char **dst_p, const char *fmt, va_list ap)
 {
 	char buf[128], *dst;
 	int res, res2;
+	va_list ap2;
 
 	*dst_p = NULL;
 
-	res = vsnprintf(buf, sizeof buf, fmt, ap);
+	va_copy(ap2, ap);
+	res = vsnprintf(buf, sizeof buf, fmt, ap2);
+	va_end(ap2);
 	if (res < 0)
 		return -1;
 	dst = cx_alloc(cx, res + 1);
